@@ -140,6 +140,38 @@ fn real_main(args: &[String]) -> i32 {
       debug_feel(&args[1..]);
       0
     }
+    "debug-soup" => {
+      let n: u64 = args.get(1).and_then(|s| s.parse().ok()).unwrap_or(20);
+      let (mut ok, mut panics) = (0u64, 0u64);
+      for i in 0..n {
+        // a failed parse may leave the scope in any state: a fresh one per text
+        let scope = dmntk_feel::Scope::default();
+        let text = jsonval::feel_token_soup(i * 104729 + 7);
+        let t2 = text.clone();
+        let r = std::panic::catch_unwind(std::panic::AssertUnwindSafe(|| {
+          let a = dmntk_feel_parser::parse_expression(&scope, &t2, false).is_ok();
+          let b = dmntk_feel_parser::parse_unary_tests(&scope, &t2, false).is_ok();
+          let c = dmntk_feel_parser::parse_context(&scope, &format!("{{s: {}}}", t2), false).is_ok();
+          let d = dmntk_feel_parser::parse_textual_expression(&scope, &t2, false).is_ok();
+          a || b || c || d
+        }));
+        match r {
+          Ok(true) => ok += 1,
+          Ok(false) => {}
+          Err(_) => {
+            panics += 1;
+            if panics <= 30 {
+              println!("PANIC on: {}", text);
+            }
+          }
+        }
+        if i < 15 {
+          println!("{}", text);
+        }
+      }
+      println!("{} of {} soups parse, {} panic", ok, n, panics);
+      0
+    }
     "debug-fuzz" => {
       let n: u64 = args.get(1).and_then(|s| s.parse().ok()).unwrap_or(20);
       let mut ok = 0;
@@ -295,7 +327,7 @@ pub fn debug_gen() {
   let t = c20::model_text("gen").unwrap();
   let d = dmntk_model::parse(&t).unwrap();
   let me = dmntk_model_evaluator::ModelEvaluator::new(&d).unwrap();
-  for inv in ["num", "tmp", "rx", "c1", "c2", "c3", "c4", "svc", "tbl", "label", "twice", "rel", "lst", "inv", "fnd", "tp", "to", "tr", "tcnt", "tmin", "tdef", "tany", "tfirst", "tp2", "to2", "tu2", "tany2", "rx2"] {
+  for inv in ["num", "tmp", "rx", "c1", "c2", "c3", "c4", "svc", "tbl", "label", "twice", "rel", "lst", "inv", "fnd", "tp", "to", "tr", "tcnt", "tmin", "tdef", "tany", "tfirst", "tp2", "to2", "tu2", "tany2", "rx2", "inv2"] {
     let ctx = dmntk_feel_evaluator::evaluate_context(&dmntk_feel::Scope::default(), if inv == "label" { r#"{n: 7, t: "ab12_34"}"# } else if inv == "twice" { "{p: 4}" } else { r#"{x: 7, s: "ab12_34"}"# }).unwrap();
     println!("{} = {}", inv, me.evaluate_invocable(inv, &ctx));
   }
